@@ -113,6 +113,15 @@ func Select(ctx context.Context, scope *ReferenceScope, query parser.SelectQuery
 
 	queryScope := scope.CreateNode()
 
+	if query.IsForUpdate() {
+		if entity, ok := query.SelectEntity.(parser.SelectEntity); ok && entity.FromClause != nil {
+			if err := holdTablesFirst(ctx, queryScope, query.WithClause, entity.FromClause.(parser.FromClause).Tables, false); err != nil {
+				queryScope.CloseCurrentNode()
+				return nil, err
+			}
+		}
+	}
+
 	if query.WithClause != nil {
 		if err := queryScope.LoadInlineTable(ctx, query.WithClause.(parser.WithClause)); err != nil {
 			queryScope.CloseCurrentNode()
@@ -354,7 +363,7 @@ func Insert(ctx context.Context, scope *ReferenceScope, query parser.InsertQuery
 	}
 
 	if query.WithClause != nil {
-		if err := holdTablesBeforeWithClause(ctx, queryScope, query.WithClause.(parser.WithClause), tables); err != nil {
+		if err := holdTablesFirst(ctx, queryScope, query.WithClause, tables, true); err != nil {
 			return nil, insertRecords, err
 		}
 		if err := queryScope.LoadInlineTable(ctx, query.WithClause.(parser.WithClause)); err != nil {
@@ -402,21 +411,25 @@ func Insert(ctx context.Context, scope *ReferenceScope, query parser.InsertQuery
 	return view.FileInfo, insertRecords, err
 }
 
-// holdTablesBeforeWithClause loads the tables that a data-changing statement
-// names for update before the WITH clause of the statement is evaluated. An
-// inline table that reads one of these files must see the file as it is while
-// this transaction holds it. Evaluated first, the inline table would be built
-// from the file as it was before the lock was taken, and a change committed by
-// another process in between would be overwritten by this statement.
-func holdTablesBeforeWithClause(ctx context.Context, scope *ReferenceScope, clause parser.WithClause, tables []parser.QueryExpression) error {
-	inlineTableNames := make(map[string]bool, len(clause.InlineTables))
-	for _, v := range clause.InlineTables {
-		if inlineTable, ok := v.(parser.InlineTable); ok {
-			inlineTableNames[strings.ToUpper(inlineTable.Name.Literal)] = true
+// holdTablesFirst loads the tables that a statement names for update before
+// anything else of the statement is evaluated that may read the same files:
+// the inline tables of its WITH clause and the sub-queries of its FROM clause.
+// Such a read must see the file as it is while this transaction holds it.
+// Evaluated first, it would see the file as it was before the lock was taken,
+// and a change committed by another process in between would be overwritten
+// by what this statement computes from the stale rows.
+func holdTablesFirst(ctx context.Context, scope *ReferenceScope, withClause parser.QueryExpression, tables []parser.QueryExpression, lockOperation bool) error {
+	inlineTableNames := make(map[string]bool)
+	if clause, ok := withClause.(parser.WithClause); ok {
+		for _, v := range clause.InlineTables {
+			if inlineTable, ok := v.(parser.InlineTable); ok {
+				inlineTableNames[strings.ToUpper(inlineTable.Name.Literal)] = true
+			}
 		}
 	}
 
 	identifiers := make([]parser.Identifier, 0, len(tables))
+	readsBeforeLoading := withClause != nil
 	var collect func(expr parser.QueryExpression)
 	collect = func(expr parser.QueryExpression) {
 		switch e := expr.(type) {
@@ -431,19 +444,23 @@ func holdTablesBeforeWithClause(ctx context.Context, scope *ReferenceScope, clau
 			case parser.Join:
 				collect(obj.Table)
 				collect(obj.JoinTable)
+			case parser.Subquery:
+				readsBeforeLoading = true
 			}
 		}
 	}
 	for _, table := range tables {
 		collect(table)
 	}
-	if len(identifiers) < 1 {
+	if !readsBeforeLoading || len(identifiers) < 1 {
 		return nil
 	}
 
-	vhook.AwaitMutex("operation", scope.Tx.operationMutex)
-	scope.Tx.operationMutex.Lock()
-	defer scope.Tx.operationMutex.Unlock()
+	if lockOperation {
+		vhook.AwaitMutex("operation", scope.Tx.operationMutex)
+		scope.Tx.operationMutex.Lock()
+		defer scope.Tx.operationMutex.Unlock()
+	}
 
 	for _, identifier := range identifiers {
 		loadScope := scope.CreateNode()
@@ -464,10 +481,10 @@ func Update(ctx context.Context, scope *ReferenceScope, query parser.UpdateQuery
 		query.FromClause = parser.FromClause{Tables: query.Tables}
 	}
 
+	if err := holdTablesFirst(ctx, queryScope, query.WithClause, query.FromClause.(parser.FromClause).Tables, true); err != nil {
+		return nil, nil, err
+	}
 	if query.WithClause != nil {
-		if err := holdTablesBeforeWithClause(ctx, queryScope, query.WithClause.(parser.WithClause), query.FromClause.(parser.FromClause).Tables); err != nil {
-			return nil, nil, err
-		}
 		if err := queryScope.LoadInlineTable(ctx, query.WithClause.(parser.WithClause)); err != nil {
 			return nil, nil, err
 		}
@@ -605,7 +622,7 @@ func Replace(ctx context.Context, scope *ReferenceScope, query parser.ReplaceQue
 	}
 
 	if query.WithClause != nil {
-		if err := holdTablesBeforeWithClause(ctx, queryScope, query.WithClause.(parser.WithClause), tables); err != nil {
+		if err := holdTablesFirst(ctx, queryScope, query.WithClause, tables, true); err != nil {
 			return nil, replaceRecords, err
 		}
 		if err := queryScope.LoadInlineTable(ctx, query.WithClause.(parser.WithClause)); err != nil {
@@ -657,10 +674,10 @@ func Delete(ctx context.Context, scope *ReferenceScope, query parser.DeleteQuery
 	queryScope := scope.CreateNode()
 	defer queryScope.CloseCurrentNode()
 
+	if err := holdTablesFirst(ctx, queryScope, query.WithClause, query.FromClause.Tables, true); err != nil {
+		return nil, nil, err
+	}
 	if query.WithClause != nil {
-		if err := holdTablesBeforeWithClause(ctx, queryScope, query.WithClause.(parser.WithClause), query.FromClause.Tables); err != nil {
-			return nil, nil, err
-		}
 		if err := queryScope.LoadInlineTable(ctx, query.WithClause.(parser.WithClause)); err != nil {
 			return nil, nil, err
 		}
